@@ -326,11 +326,19 @@ def replay(v):
         return llks, post, rex.posterior_allele_frequencies(post, P, A)
 
     def stream(rex):
-        n = len(order)
-        mode, mllk, mlj, tlj = _py(rex._call_posterior_mode)(None, P, haps, n, None, F, farr)
-        sup = rex._genotype_support_log_joint(mode, None, haps, None, F, farr)
-        fr, oc = _py(rex._posterior_allele_frequencies)(tlj, None, P, haps, n, None, F, farr)
-        return mode, mllk, math.exp(mlj - tlj), math.exp(sup - tlj), fr, oc
+        # the same entry point the symbolic harness drives (posterior_mode itself), with its jitted helpers run as py_func so
+        # that the likelihood table is visible to them
+        names = ("_call_posterior_mode", "_posterior_allele_frequencies")
+        saved = {n_: getattr(rex, n_) for n_ in names}
+        try:
+            for n_ in names:
+                setattr(rex, n_, _py(saved[n_]))
+            mode, mllk, gpm, spm, fr, oc = rex.posterior_mode(None, P, haps, inbreeding=F, frequencies=farr, return_support_prob=True,
+                                                              return_posterior_frequencies=True, return_posterior_occurrence=True)
+        finally:
+            for n_ in names:
+                setattr(rex, n_, saved[n_])
+        return mode, mllk, float(gpm), float(spm), fr, oc
 
     afp = [sum(Jn[g] * g.count(a) for g in order) / (P * tot) for a in range(A)]
     aop = [sum(Jn[g] for g in order if a in g) / tot for a in range(A)]
